@@ -2,7 +2,12 @@
 
 package generate
 
-import "github.com/go-swagger/go-swagger/generator"
+import (
+	"fmt"
+
+	"github.com/go-swagger/go-swagger/generator"
+	flags "github.com/jessevdk/go-flags"
+)
 
 // verifProbe runs the real option plumbing of createSwagger (apply, copyright, EnsureDefaults, config file) for a
 // command and captures the resulting options instead of generating anything. Build tag `verif` only.
@@ -16,23 +21,52 @@ func (p *verifProbe) generate(o *generator.GenOpts) error {
 	return nil
 }
 
+// VerifOpts parses args for `swagger generate <kind>` with go-flags (so that option defaults apply), runs the
+// command's option plumbing and returns the resulting GenOpts together with a closure that runs the command's own
+// generate step on them.
+func VerifOpts(kind string, args []string) (*generator.GenOpts, func() error, error) {
+	var cmd sharedCommand
+	switch kind {
+	case "server":
+		cmd = &Server{}
+	case "client":
+		cmd = &Client{}
+	case "model":
+		cmd = &Model{}
+	case "cli":
+		cmd = &Cli{}
+	case "markdown":
+		cmd = &Markdown{}
+	case "operation":
+		cmd = &Operation{}
+	case "support":
+		cmd = &Support{}
+	default:
+		return nil, nil, fmt.Errorf("unknown generate kind %q", kind)
+	}
+	parser := flags.NewParser(cmd, flags.HelpFlag|flags.PassDoubleDash)
+	if _, err := parser.ParseArgs(args); err != nil {
+		return nil, nil, err
+	}
+	p := &verifProbe{sharedCommand: cmd}
+	if err := createSwagger(p); err != nil {
+		return nil, nil, err
+	}
+	return p.got, func() error { return cmd.generate(p.got) }, nil
+}
+
 // VerifServerOpts returns the GenOpts `swagger generate server` would generate with.
 func VerifServerOpts(regenerateConfigure bool) (*generator.GenOpts, error) {
-	s := &Server{}
-	s.RegenerateConfigureAPI = regenerateConfigure
-	p := &verifProbe{sharedCommand: s}
-	if err := createSwagger(p); err != nil {
-		return nil, err
+	args := []string{}
+	if regenerateConfigure {
+		args = append(args, "--regenerate-configureapi")
 	}
-	return p.got, nil
+	o, _, err := VerifOpts("server", args)
+	return o, err
 }
 
 // VerifClientOpts returns the GenOpts `swagger generate client` would generate with.
 func VerifClientOpts() (*generator.GenOpts, error) {
-	c := &Client{}
-	p := &verifProbe{sharedCommand: c}
-	if err := createSwagger(p); err != nil {
-		return nil, err
-	}
-	return p.got, nil
+	o, _, err := VerifOpts("client", nil)
+	return o, err
 }
